@@ -247,7 +247,7 @@ Proof.
   pose proof (main_steps l Hp (parse_fuel inp) Hfuel) as Hrun. fold inp in Hrun. rewrite Hrun.
   unfold main_pairs. cbn [next_down p_kids]. unfold b_jp_query. cbn [next_down p_kids bind].
   assert (E4 : exists f, parse_fuel inp = S (S (S (S f)))).
-  { exists (396 + 60 * length inp)%nat. unfold parse_fuel. lia. }
+  { exists (996 + 400 * length inp)%nat. unfold parse_fuel. lia. }
   destruct E4 as [f E4]. rewrite E4. rewrite b_segments_step. cbn [p_kids].
   change 1%nat with (length [36%N]).
   rewrite (mapM_steps inp f l [36%N] [] ); [|unfold inp; rewrite app_nil_r; reflexivity|exact Hp|exact Hr].
